@@ -72,7 +72,7 @@ def rich_world(seed, n_chroms=6, genes_per_chrom=3, groups=3, multimappers=True,
     rng = w.rng
     for ci in range(n_chroms):
         cname = "chr%d" % (ci + 1)
-        w.add_chrom(cname, 60000 + ci * 4321 + genes_per_chrom * 9000 + extra_len + (178000 if zoo else 0))
+        w.add_chrom(cname, 60000 + ci * 4321 + genes_per_chrom * 9000 + extra_len + (187000 if zoo else 0))
         pos = 1500
         for gi in range(genes_per_chrom):
             gid = "G%d_%d" % (ci + 1, gi + 1)
@@ -753,6 +753,20 @@ def early_end_isoform_locus(w, gid, chrom, p, strand):
     return g, p + 3300
 
 
+def noncanonical_novel_locus(w, gid, chrom, p):
+    """An unannotated five-exon isoform in gene-free space none of whose introns has a canonical splice-site pair on either strand; its
+    reads carry no tail and come in both orientations: there is no evidence for a strand at all."""
+    ex = [(p, p + 300), (p + 1000, p + 1200), (p + 2000, p + 2250), (p + 3000, p + 3300), (p + 4000, p + 4400)]
+    g = Gene(gid, chrom, "+")
+    g.hidden.append(Transcript(gid + ".h1", gid, chrom, "+", ex, False, "no-strand-evidence"))
+    for intr in g.hidden[0].introns:
+        w.plant_sites(chrom, intr, "+", "none")
+    w.genes.append(g)
+    for k in range(12):
+        w.make_read(chrom, list(ex), flag=16 * (k % 2), truth={"src": gid + ".h1", "class": "no-strand-evidence"})
+    return g, p + 4400
+
+
 def near_site_novel_locus(w, gid, chrom, p, strand):
     """t1 = e1..e5, t2 = e1-e3-e5 (annotated); the unannotated isoform e1-e2-e3-e5' is a new combination of annotated introns except
     that its last junction (first for '-') sits 3 bp away from the annotated site of t2's intron: that intron is unannotated, although it
@@ -825,7 +839,7 @@ def gene_valley_locus(w, gid, chrom, p, strand):
 
 ZOO_ALL = ("ambiguous_only", "twins", "contested", "intronic", "apa", "alt_terminal", "shifted_site", "shared_chain", "same_coords",
            "one_bp_exon", "lowmapq_two_exon", "mono_only", "gap_gene", "gene_valley", "odd_chroms",
-           "near_site_novel", "low_cov_novel", "two_exon_alt_polya", "dense_two_exon", "antisense_shared_exon", "micro_exon_sibling", "mixed_strand_gene", "two_cluster", "early_end_isoform")
+           "near_site_novel", "low_cov_novel", "two_exon_alt_polya", "dense_two_exon", "antisense_shared_exon", "micro_exon_sibling", "mixed_strand_gene", "two_cluster", "early_end_isoform", "noncanonical_novel")
 ZOO_NO_TIES = tuple(z for z in ZOO_ALL if z != "twins")
 
 
@@ -993,6 +1007,9 @@ def add_zoo(w, parts=ZOO_ALL):
             # one reference isoform seen from two separate read clusters (5' and 3' fragments on either side of a long intron)
             two_cluster_gene(w, "ZTC" + tag, chrom, _free_pos(w, chrom, 3000), "+-"[(ci // 2) % 2], n_iso=1 + (ci // 2) % 2)
             placed.add("two_cluster")
+        if "noncanonical_novel" in parts and ci % 2 == 0 and room(8000):
+            noncanonical_novel_locus(w, "ZNC" + tag, chrom, _free_pos(w, chrom, 3000))
+            placed.add("noncanonical_novel")
         if "early_end_isoform" in parts and room(6500):
             early_end_isoform_locus(w, "ZEE" + tag, chrom, _free_pos(w, chrom), "+-"[ci % 2])
             placed.add("early_end_isoform")
